@@ -272,6 +272,18 @@ fn chain_source_maps(
                             name_idx,
                             false,
                         );
+                    } else {
+                        // no image in the original map: say so, instead of letting a lookup at this
+                        // position fall back to the previous token's (unrelated) original position
+                        builder.add_raw(
+                            token.get_dst_line(),
+                            token.get_dst_col(),
+                            0,
+                            0,
+                            None,
+                            None,
+                            false,
+                        );
                     }
                 }
 
